@@ -378,8 +378,79 @@ func RunC09Default(c *core.Ctx) {
 		}
 		prev = as.GetKey()
 	}
+	// element types that Go cannot compare with == (slices, maps): default ranker and a
+	// ranker of the caller's; the result must be a permutation in lexicographic order
+	m := r.Intn(12)
+	sl := make([][]int, m)
+	for i := range sl {
+		sl[i] = []int{r.Intn(3), r.Intn(3), i} // the last component makes every value distinct
+	}
+	lexLess := func(a, b []int) bool {
+		for k := 0; k < len(a) && k < len(b); k++ {
+			if a[k] != b[k] {
+				return a[k] < b[k]
+			}
+		}
+		return len(a) < len(b)
+	}
+	wantSl := make([][]int, m)
+	copy(wantSl, sl)
+	sort.Slice(wantSl, func(i, j int) bool { return lexLess(wantSl[i], wantSl[j]) })
+	for _, how := range []string{"default ranker", "own ranker", "List.SortValues", "maps with own ranker"} {
+		var got string
+		wantStr := fmt.Sprint(wantSl)
+		pan, _, msg := Try(func() {
+			switch how {
+			case "default ranker":
+				w := make([][]int, m)
+				copy(w, sl)
+				age.Sorter[[]int]().Make().SortValues(w)
+				got = fmt.Sprint(w)
+			case "own ranker":
+				w := make([][]int, m)
+				copy(w, sl)
+				age.Sorter[[]int]().MakeWithRanker(func(a, b []int) age.Rank {
+					switch {
+					case lexLess(a, b):
+						return age.LesserRank
+					case lexLess(b, a):
+						return age.GreaterRank
+					}
+					return age.EqualRank
+				}).SortValues(w)
+				got = fmt.Sprint(w)
+			case "List.SortValues":
+				l := col.List[[]int](Notation).MakeFromArray(sl)
+				l.SortValues()
+				got = fmt.Sprint(l.AsArray())
+			default:
+				ms := make([]map[string]int, m)
+				for i := range ms {
+					ms[i] = map[string]int{"k": sl[i][0]*1000 + i}
+				}
+				age.Sorter[map[string]int]().MakeWithRanker(func(a, b map[string]int) age.Rank { return cmp3(a["k"], b["k"]) }).SortValues(ms)
+				for i := 0; i+1 < len(ms); i++ {
+					if ms[i]["k"] >= ms[i+1]["k"] {
+						got = fmt.Sprint(ms)
+						wantStr = "strictly ascending by k"
+						return
+					}
+				}
+				got, wantStr = "", ""
+			}
+		})
+		if pan {
+			c.Violation("sort.uncomparable-elements/panicked", "sorting values of a type Go cannot compare with == ("+how+") panicked: "+msg, map[string]any{"input": fmt.Sprint(sl)})
+			return
+		}
+		if got != wantStr {
+			c.Violation("sort.uncomparable-elements/wrong-result", fmt.Sprintf("%s: %s, expected %s", how, got, wantStr), map[string]any{"input": fmt.Sprint(sl)})
+			return
+		}
+	}
 	c.Cover("default")
-	c.Distinct(core.Mix(0xdef, core.HashStr(fmt.Sprint(vals))))
+	c.Cover("uncomparable-element-types")
+	c.Distinct(core.Mix(0xdef, core.HashStr(fmt.Sprint(vals, sl))))
 }
 
 func showAssocKV(c col.CatalogLike[int, int]) string {
